@@ -406,11 +406,11 @@ pub fn def() -> PropDef {
         rule: "pairs of field elements from boundary classes (0, 1, 2, p-1-k, (p-1)/2+k, 2^k, 2^k+-1 at every bit position, the Montgomery radix R, R^2, R-1, small) and uniform limbs; exponents of 0..12 limbs incl. zero / all-ones / leading-zero limbs; representation values incl. >= p, 2^k, all-ones, per-limb patterns; shifts 0..=400, multiples of 64, >= width, u32::MAX. Oracle: BigUint arithmetic. Non-trivial = not both operands in {0,1}; distinct = distinct cases",
         needs_pairing: false,
         subs: vec![
-            Box::new(Sub { name: "fq-ops", rule: "Fq add/sub/neg/double/mul/square/inverse/pow/frobenius/is_zero/==/cmp/from_str vs integers mod q", quick: 200_000, thorough: 2_000_000, strategy: || boxed(ops_strategy(6)), check: check_fq_ops }),
-            Box::new(Sub { name: "fr-ops", rule: "Fr, same operations vs integers mod r", quick: 200_000, thorough: 2_000_000, strategy: || boxed(ops_strategy(4)), check: check_fr_ops }),
             Box::new(Sub { name: "fq-repr", rule: "FqRepr as 384-bit unsigned integer: from_repr range, add_nocarry/sub_noborrow within preconditions, shr/shl/div2/mul2, num_bits, parity, cmp, From<u64>, be/le I/O", quick: 300_000, thorough: 3_000_000, strategy: || boxed(repr_case_strategy(6)), check: check_fq_repr }),
             Box::new(Sub { name: "fr-repr", rule: "FrRepr as 256-bit unsigned integer, same operations", quick: 300_000, thorough: 3_000_000, strategy: || boxed(repr_case_strategy(4)), check: check_fr_repr }),
             Box::new(EnumSub { name: "constants", rule: "hard-coded constants observed through behaviour: char(), NUM_BITS, one/zero, documented generator coordinates (enumerated)", run: run_constants, replay: replay_constants, exhaustive: true }),
+            Box::new(Sub { name: "fq-ops", rule: "Fq add/sub/neg/double/mul/square/inverse/pow/frobenius/is_zero/==/cmp/from_str vs integers mod q", quick: 200_000, thorough: 2_000_000, strategy: || boxed(ops_strategy(6)), check: check_fq_ops }),
+            Box::new(Sub { name: "fr-ops", rule: "Fr, same operations vs integers mod r", quick: 200_000, thorough: 2_000_000, strategy: || boxed(ops_strategy(4)), check: check_fr_ops }),
             super::corpus_sub_field(),
         ],
         assumptions: {
